@@ -91,7 +91,9 @@ class PTETableEntry:
         # Compile regular expression corresponding to pte_pattern.  pte_pattern
         # is not in regular expression format.  It contains '*' characters to
         # match any one character.  Convert '*' to '.'.
-        re_pattern = self.pte_pattern.replace('*', '.')
+        # Every other character stands for itself.
+        re_pattern = ''.join('.' if c == '*' else re.escape(c)
+                             for c in self.pte_pattern)
         self.pte_re = re.compile(re_pattern, re.IGNORECASE)
 
     def get_message(self, pte: int) -> str:
